@@ -17,6 +17,7 @@ import (
 	"os"
 	"path/filepath"
 	"strings"
+	"sync/atomic"
 
 	"github.com/elastos/Elastos.ELA/common"
 	"github.com/elastos/Elastos.ELA/common/config"
@@ -453,7 +454,8 @@ func main() {
 	var evalsA, nRej, nAcc, coinbaseRej int64
 	classes := &evid.Distinct{}
 	samples := &evid.Samples{N: 8}
-	for _, t := range types {
+	par.Go(len(types), func(ti int) {
+		t := types[ti]
 		for nin := 1; nin <= 3; nin++ {
 			for nout := 1; nout <= 3; nout++ {
 				for pi := -1; pi < nin; pi++ {
@@ -466,14 +468,14 @@ func main() {
 								for _, l := range lists {
 									c := caseA{Type: t, NIn: nin, NOut: nout, PosIn: pi, PosOu: po, Who: who, H: h, List: l}
 									rej, errs := evalA(c, hA, hB)
-									evalsA++
+									atomic.AddInt64(&evalsA, 1)
 									if rej {
-										nRej++
+										atomic.AddInt64(&nRej, 1)
 										if t == int(common2.CoinBase) {
-											coinbaseRej++
+											atomic.AddInt64(&coinbaseRej, 1)
 										}
 									} else {
-										nAcc++
+										atomic.AddInt64(&nAcc, 1)
 									}
 									judgeA(r, c, rej, errs)
 									if t == int(common2.TransferAsset) {
@@ -489,7 +491,7 @@ func main() {
 				}
 			}
 		}
-	}
+	})
 
 	// ---- (b) + (c)
 	cb := casesB()
